@@ -13,7 +13,7 @@ WORDS = ["alpha", "bravo", "chunk", "delta", "echo", "frame", "gamma", "hotel", 
 FEATURES = ["enums", "signed_enum", "bits_type", "anon_bits", "leaf_struct", "params", "cond", "dyn_array",
             "struct_array", "param_struct_array", "next", "virtuals", "transforms", "requires", "struct_requires",
             "union", "dyn_offset", "bcd", "float", "skip", "no_default_order", "wide", "int_fields", "max_present",
-            "nested_cond", "bits_array", "struct_default_order", "emit_attr"]
+            "nested_cond", "bits_array", "struct_default_order", "emit_attr", "inline_types", "dyn_struct"]
 
 
 class Names:
@@ -67,6 +67,7 @@ class Gen:
         self.enums = []
         self.structs = []
         self.leafs = []      # (StructDef, size_units) fixed-size struct types usable as fields
+        self.dyn_structs = []  # StructDef whose size depends on its contents
         self.bits_types = []  # (StructDef, bits)
         self.default_order = None if "no_default_order" in feats else rng.choice(["LittleEndian", "BigEndian"])
         self.module_default_order = self.default_order
@@ -241,6 +242,31 @@ class Gen:
         self.leafs.append((sd, off))
         return sd
 
+    def make_dyn_struct(self):
+        """A structure whose size depends on its contents: a count, a payload of that many bytes and,
+        optionally, a conditional trailer after the payload."""
+        rng = self.rng
+        name = self.names.camel()
+        struct_default = self.draw_struct_default()
+        n = self.names.snake()
+        fields = [D.Field(n, D.Const(0), D.Const(1), D.Scalar("UInt", 8))]
+        if "requires" in self.f and rng.random() < 0.4:
+            fields[0].requires = D.Bin("<=", D.This(), D.Const(rng.choice([3, 5, 9])))
+        ebytes = rng.choice([1, 1, 2])
+        size = D.Ref(n) if ebytes == 1 else D.Bin("*", D.Ref(n), D.Const(ebytes))
+        fields.append(D.Field(self.names.snake(), D.Const(1), size, D.ArrayT(D.Scalar("UInt", ebytes * 8), ebytes * 8, None),
+                              byte_order=self.order_attr(ebytes)))
+        if rng.random() < 0.5:
+            c = D.Bin(rng.choice([">", ">=", "!="]), D.Ref(n), D.Const(rng.randint(0, 3)))
+            start = D.Next() if ("next" in self.f and rng.random() < 0.5) else D.Bin("+", D.Const(1), size)
+            fields.append(D.Field(self.names.snake(), start, D.Const(1), D.Scalar("UInt", 8), cond=c if "cond" in self.f else None))
+        if "virtuals" in self.f and rng.random() < 0.5:
+            fields.append(D.Field(self.names.snake(), expr=D.Bin("+", D.Ref(n), D.Const(rng.randint(1, 9)))))
+        sd = D.StructDef(name, "struct", fields=fields, default_byte_order=struct_default)
+        self.structs.append(sd)
+        self.dyn_structs.append(sd)
+        return sd
+
     # -- main structures
     def make_main(self):
         rng = self.rng
@@ -336,6 +362,8 @@ class Gen:
                 kinds.append("union")
             if "dyn_offset" in self.f and ints and cur is not None:
                 kinds.append("dyn_offset")
+            if self.dyn_structs:
+                kinds += ["dyn_struct_field"]
             kind = rng.choice(kinds)
             cond = None
             if "cond" in self.f and rng.random() < 0.35 and kind not in ("small_int", "enum_tag", "union"):
@@ -442,6 +470,24 @@ class Gen:
                     start = static_place(n * esize)
                     arr = D.ArrayT(D.StructRef(sd.name, args), esize * 8, D.Const(n) if rng.random() < 0.7 else None)
                 fields.append(D.Field(self.names.snake(), start, size, arr, cond=cond))
+            elif kind == "dyn_struct_field":
+                # a nested structure of variable size in a slot that is fixed or itself dynamic
+                sd2 = rng.choice(self.dyn_structs)
+                srcs = [s for s in ints if s.lo >= 0 and s.hi <= 255]
+                if srcs and rng.random() < 0.5:
+                    size = rng.choice(srcs).expr
+                    if cur is not None:
+                        start = D.Const(cur)
+                        cur_expr = D.Bin("+", D.Const(cur), size)
+                        cur = None
+                    else:
+                        start = D.Next() if ("next" in self.f and rng.random() < 0.5) else cur_expr
+                        cur_expr = D.Bin("+", cur_expr, size)
+                else:
+                    k = rng.choice([2, 3, 4, 6, 8])
+                    size = D.Const(k)
+                    start = static_place(k)
+                fields.append(D.Field(self.names.snake(), start, size, D.StructRef(sd2.name), cond=cond))
             elif kind == "union":
                 base = cur
                 width = 0
@@ -576,9 +622,16 @@ class Gen:
         if "leaf_struct" in self.f or "struct_array" in self.f:
             for _ in range(rng.randint(1, 2)):
                 self.make_leaf_struct()
+        if "dyn_struct" in self.f:
+            self.make_dyn_struct()
         mains = []
         for _ in range(rng.randint(1, 2)):
             mains.append(self.make_main())
+        if "inline_types" in self.f:
+            # some helper types become inline definitions inside a main structure (Outer.Inner)
+            for t in list(self.enums) + [s for s in self.structs if s not in mains]:
+                if rng.random() < 0.4 and not getattr(t, "params", None):
+                    t.parent = rng.choice(mains).name
         m = D.ModuleDef("sim", self.module_default_order, self.enums, self.structs)
         m.mains = [s.name for s in mains]
         return m
